@@ -379,8 +379,45 @@ func (p *c15) searchPaths(rec *core.Recorder, r *core.Rand) {
 	rec.Count("calls-checked", 2)
 }
 
+// aliased: the template object of a loaded name is registered under a second name as well (on the same engine or on
+// another one). The first name goes on following its loader: a newer version there is visible to the next call.
+func (p *c15) aliased(rec *core.Recorder, r *core.Rand) {
+	l := &c15TsMem{c15Mem{m: map[string]c15Entry{"aa": {"⟦aa#1@L0⟧", 10}}, loads: map[string]int{}}}
+	e := twig.New()
+	e.RegisterLoader(l)
+	e.SetAutoReload(true)
+	other := twig.New()
+	where := r.Intn(3)
+	trace := fmt.Sprintf("Load(aa); RegisterTemplate(alias, that template) on %s; aa changes in the loader (newer); Render(aa)", []string{"the same engine", "another engine", "both"}[where])
+	rec.Eval("aliased", trace, true)
+	rec.Count("alias-registration-histories", 1)
+	cs := map[string]any{"trace": trace}
+	t, err := e.Load("aa")
+	if err != nil {
+		rec.Violate("cache-model", "aliased-load", fmt.Sprintf("Load(aa) failed: %v", err), cs, "")
+		return
+	}
+	if where != 1 {
+		e.RegisterTemplate("alias", t)
+	}
+	if where != 0 {
+		other.RegisterTemplate("alias", t)
+	}
+	l.m["aa"] = c15Entry{"⟦aa#2@L0⟧", 20}
+	if out, err := e.Render("aa", nil); err != nil || out != "⟦aa#2@L0⟧" {
+		rec.Violate("cache-model", "alias-registration-stops-auto-reload",
+			fmt.Sprintf("after the template of 'aa' was also registered under another name, a newer version of 'aa' in its timestamp-aware loader (auto-reload on) is not served: Render(aa) gave %q (err=%v), want the new version", out, err), cs, "")
+		return
+	}
+	rec.Count("calls-checked", 2)
+}
+
 func (p *c15) Run(rec *core.Recorder, seed uint64, idx int, tier string) {
 	twig.SetDebugWriter(io.Discard)
+	if idx%25 == 23 {
+		p.aliased(rec, core.NewRand("C15a", seed, idx))
+		return
+	}
 	if idx%25 == 21 {
 		p.searchPaths(rec, core.NewRand("C15s", seed, idx))
 		return
